@@ -97,7 +97,8 @@ Fail(p, M, v, ln) ==
             ELSE \* ON ERROR RESUME NEXT: the failed module-level statement is skipped
               IF inmain THEN
                   SkipFailed(p, [M EXCEPT !.frames = <<[main EXCEPT !.pend = <<>>]>>, !.eh = [M.eh EXCEPT !.err = v[2]], !.ev = NoEv])
-              ELSE [M EXCEPT !.status = [k |-> "oom", kind |-> "resume-next-in-procedure", ln |-> ln], !.ev = NoEv]
+              \* inside a procedure: the failed statement of that procedure is skipped, its activation stays
+              ELSE SkipFailed(p, [SetTop(M, [Top(M) EXCEPT !.pend = <<>>]) EXCEPT !.eh = [M.eh EXCEPT !.err = v[2]], !.ev = NoEv])
 
 WriteLoc(M, loc, v) == [M EXCEPT !.store = [l \in DOMAIN M.store \cup {loc} |-> IF l = loc THEN v ELSE M.store[l]]]
 
